@@ -22,6 +22,7 @@ type entry struct {
 var checks = map[string]entry{
 	"C01": {"model_checking", props.C01},
 	"C02": {"model_checking", props.C02},
+	"C03": {"model_checking", props.C03},
 	"C04": {"model_checking", props.C04},
 	"C05": {"model_checking", props.C05},
 	"C06": {"model_checking", props.C06},
@@ -29,6 +30,7 @@ var checks = map[string]entry{
 	"C08": {"model_checking", props.C08},
 	"C09": {"model_checking", props.C09},
 	"C10": {"model_checking", props.C10},
+	"C11": {"model_checking", props.C11},
 	"C12": {"model_checking", props.C12},
 	"C13": {"model_checking", props.C13},
 	"C14": {"model_checking", props.C14},
